@@ -59,13 +59,24 @@ def setup(extra: dict[str, str] | None = None) -> None:
     _done = True
 
 
-def scratch_dir() -> str:
+def scratch_dir(private: bool = True) -> str:
+    """Scratch directory; private=True gives a per-process subdirectory (journal
+    files of many workers in one tmpfs directory contend on the directory lock)."""
     for d in ("/dev/shm", os.environ.get("TMPDIR") or "/tmp"):
         if os.path.isdir(d) and os.access(d, os.W_OK):
-            p = os.path.join(d, "vrig")
+            p = os.path.join(d, "vrig", f"p{os.getpid()}") if private else os.path.join(d, "vrig")
             os.makedirs(p, exist_ok=True)
             return p
     raise RuntimeError("no scratch directory")
+
+
+def cleanup_scratch() -> None:
+    import shutil
+
+    for d in ("/dev/shm", os.environ.get("TMPDIR") or "/tmp"):
+        p = os.path.join(d, "vrig", f"p{os.getpid()}")
+        if os.path.isdir(p):
+            shutil.rmtree(p, ignore_errors=True)
 
 
 def seed() -> int:
